@@ -410,7 +410,7 @@ pub fn run(ctx: &Ctx) -> Outcome {
         });
     }
     if want("triples-random") {
-        let (lo, hi) = range(ctx.tier.pick(500, 60_000));
+        let (lo, hi) = range(ctx.tier.pick(5000, 60_000));
         run_cases(&mut acc, "triples-random", hi - lo, |i| {
             let i = i + lo;
             let mut rng = Rng::derive(seed, "c03-triples", i);
